@@ -127,25 +127,112 @@ def _run_facts(ctx):
     return res
 
 
+_HELPER_BOUND = 2  # `run -> self._helper(...) -> self._helper2(...)`: resolved private helpers followed to find the batch branch
+
+
+def _submits(p, fn) -> list:
+    return [n for n in _by_name(fn.cfg, "_run_batch_command") if any(call_is(p, fn, c, f"{QMC}._run_batch_command") for c in n.calls())]
+
+
+def _self_helper_calls(p, fn) -> list:
+    """(call, callee) for every `self._name(...)` in fn that resolves to exactly one plain, private, concrete method
+    defined in QueueManagerConnector itself (no override in a subclass, no decorator): the only callees whose body is
+    certainly the code that runs, so the only ones a split-off part of `run` is looked for in."""
+    if not fn.params:
+        return []
+    me, out = fn.params[0], []
+    for c in fn.calls():
+        if not (isinstance(c.func, ast.Attribute) and dotted(c.func.value) == me and c.func.attr.startswith("_") and not c.func.attr.startswith("__")):
+            continue
+        defs = p.overrides(QMC, c.func.attr)
+        if len(defs) != 1 or defs[0].cls is None or defs[0].cls.qualname != QMC or defs[0].is_abstract or defs[0].decorators:
+            continue
+        out.append((c, defs[0]))
+    return out
+
+
+def _batch_chains(p, fn, depth: int, seen: frozenset) -> list:
+    """call chains [(caller, call, callee), ...] from fn to the function that submits the batch job ([] = fn itself)"""
+    if _submits(p, fn):
+        return [[]]
+    if depth <= 0:
+        return []
+    out = []
+    for c, callee in _self_helper_calls(p, fn):
+        if callee.qualname in seen:
+            continue
+        for ch in _batch_chains(p, callee, depth - 1, seen | {callee.qualname}):
+            out.append([(fn, c, callee), *ch])
+    return out
+
+
 def _run_facts_uncached(ctx):
     p = ctx.prog
-    f = p.func(f"{QMC}.run")
+    run = p.func(f"{QMC}.run")
+    # the batch branch (submission .. wait .. result) is analysed where it lives: in run itself, or -- when the long
+    # method was split -- in the private helper of QueueManagerConnector that run reaches through resolved
+    # `self._helper(...)` calls (bound _HELPER_BOUND).  The links of that chain get their own obligations (R3: only the
+    # helper writes the bookkeeping, R4: its result is awaited and returned unchanged, R5: it receives a wrapping location).
+    chains = _batch_chains(p, run, _HELPER_BOUND, frozenset({run.qualname}))
+    ctx.require(len(chains) == 1, "C27: `job_id = await self._run_batch_command(...)` not found in QueueManagerConnector.run"
+                                  + (f" nor in a private helper it calls (bound {_HELPER_BOUND})" if not chains else ": several helper routes submit a batch job (shape not interpretable)"))
+    chain = chains[0]
+    f = chain[-1][2] if chain else run
+    via = ""
+    if chain:
+        via = (" [`run` is the batch branch of QueueManagerConnector.run, followed through the resolved call(s) "
+               + " -> ".join(f"`{caller.params[0]}.{callee.name}(...)` at L{call.lineno} of {caller.name}" for caller, call, callee in chain) + f" into {f.qualname}]")
     g = f.cfg
     me = f.params[0]
-    A = [n for n in _by_name(g, "_run_batch_command") if any(call_is(p, f, c, f"{QMC}._run_batch_command") for c in n.calls())]
+    A = _submits(p, f)
     ctx.require(len(A) == 1 and isinstance(A[0].ast, ast.Assign) and len(A[0].ast.targets) == 1 and isinstance(A[0].ast.targets[0], ast.Name),
-                "C27: `job_id = await self._run_batch_command(...)` not found in QueueManagerConnector.run")
+                f"C27: `job_id = await self._run_batch_command(...)` not found in {f.qualname}")
     jid = A[0].ast.targets[0].id
-    ctx.require(len([d for d in defs_of(f, jid)]) == 1, f"C27: `{jid}` is assigned more than once in run (shape not interpretable)")
+    ctx.require(len([d for d in defs_of(f, jid)]) == 1, f"C27: `{jid}` is assigned more than once in {f.name} (shape not interpretable)")
     jobs = f"{me}.{JOBS}"
     B = [n for n in g.nodes.values() if n.kind == "stmt" and isinstance(n.ast, ast.Assign)
          and any(isinstance(t, ast.Subscript) and dotted(t.value) == jobs for t in n.ast.targets)]
     D = [n for n in _by_name(g, "_get_running_jobs") if any(call_is(p, f, c, f"{QMC}._get_running_jobs") for c in n.calls())]
-    ctx.require(bool(D), "C27: run no longer polls _get_running_jobs")
+    ctx.require(bool(D), f"C27: {f.name} no longer polls _get_running_jobs")
     # the cache cleared by run
     C = [n for n in g.nodes.values() if any(isinstance(c.func, ast.Attribute) and c.func.attr == "clear" and (dotted(c.func.value) or "").startswith(me + ".")
                                              and "cache" in c.func.value.attr for c in n.calls())]
-    return dict(f=f, g=g, me=me, A=A[0], jid=jid, jobs=jobs, B=B, C=C, D=D)
+    return dict(f=f, g=g, me=me, A=A[0], jid=jid, jobs=jobs, B=B, C=C, D=D, chain=chain, via=via, run=run)
+
+
+def _obv(ctx, F):
+    """ctx.ob whose finding text says where the batch branch was found when it is not run itself"""
+    via = F["via"]
+
+    def ob(*a, **kw):
+        if via and kw.get("message"):
+            kw["message"] = kw["message"] + via
+        return ctx.ob(*a, **kw)
+
+    return ob
+
+
+def _forwarded(caller, call) -> tuple[bool, list]:
+    """the result of `call` (a helper holding the batch branch) is awaited and is what `caller` returns on every normal
+    path behind it (directly or through local temporaries): (ok, witness path that ends without returning it)"""
+    g = caller.cfg
+    if not isinstance(getattr(call, "_parent", None), ast.Await):
+        return False, []
+    good = set()
+    for n in g.nodes.values():
+        if n.kind == "return" and n.ast.value is not None:
+            vals = origins(caller, n.ast.value)
+            if vals and all(v is call for v in vals):
+                good.add(n.id)
+    if not good:
+        return False, []
+    for i in g.node_containing(call):
+        if i in good:
+            continue
+        w = g.escape(i, good)
+        if w:
+            return False, g.describe(w)
+    return True, []
 
 
 def _path_without_edges(g, src: int, dsts: set[int], banned) -> list[int] | None:
@@ -191,17 +278,18 @@ def r1(ctx):
     p = ctx.prog
     F = _run_facts(ctx)
     f, g, me, A, jid, B, C, D = F["f"], F["g"], F["me"], F["A"], F["jid"], F["B"], F["C"], F["D"]
+    ob = _obv(ctx, F)
     Bi, Ci, Di = [n.id for n in B], [n.id for n in C], [n.id for n in D]
     # 1. registration after submission, before every poll
     ok = bool(B) and all(g.dominates(A.id, b) for b in Bi) and all(g.dominates(Bi, d) for d in Di)
-    ctx.ob("R1", "the job id is registered after submission and before every poll", ok, func=f, node=B[0].ast if B else A.ast, instance="run:register",
+    ob("R1", "the job id is registered after submission and before every poll", ok, func=f, node=B[0].ast if B else A.ast, instance="run:register",
            message="run: `_scheduled_jobs[job_id] = ...` does not lie between the submission and the first _get_running_jobs: the listing may not cover the job")
     # 2. cache invalidated between registration and every poll
     w = None
     for b in Bi or [A.id]:
         for d in Di:
             w = w or g.path(b, [d], avoid=Ci)
-    ctx.ob("R1", "the jobs cache is cleared between registration and every poll", bool(C) and w is None, func=f, node=C[0].ast if C else A.ast, instance="run:clear",
+    ob("R1", "the jobs cache is cleared between registration and every poll", bool(C) and w is None, func=f, node=C[0].ast if C else A.ast, instance="run:clear",
            message="run: a path from the registration of the job id to _get_running_jobs avoids `_jobs_cache.clear()`: a listing cached before the "
                    "registration (without this job) makes the job look finished at once", witness=g.describe(w) if w else [])
     # 3. lock scope
@@ -211,7 +299,7 @@ def r1(ctx):
     cand = {x for x in cand if x.startswith(me + ".")}
     if len(cand) == 1:
         lock = next(iter(cand))
-    ctx.ob("R1", "the cache is cleared under the jobs-cache lock", lock is not None, func=f, node=C[0].ast if C else f.node, instance="run:clear-locked",
+    ob("R1", "the cache is cleared under the jobs-cache lock", lock is not None, func=f, node=C[0].ast if C else f.node, instance="run:clear-locked",
            message="run clears the jobs cache outside `async with self._jobs_cache_lock`: an in-flight poll stores its stale listing after the clear")
     if lock is not None:
         t = p.attr_type(f.cls.qualname, lock.split(".", 1)[1])
@@ -219,7 +307,7 @@ def r1(ctx):
     for n in D:
         for c in n.calls():
             if isinstance(c.func, ast.Attribute) and c.func.attr == "_get_running_jobs" and call_is(p, f, c, f"{QMC}._get_running_jobs"):
-                ctx.ob("R1", "every poll holds the jobs-cache lock", lock is not None and lock in _lock_of(c, f.node), func=f, node=c, instance="run:poll-locked",
+                ob("R1", "every poll holds the jobs-cache lock", lock is not None and lock in _lock_of(c, f.node), func=f, node=c, instance="run:poll-locked",
                        message="run polls _get_running_jobs outside the jobs-cache lock: its (possibly stale) listing can be stored after another job's cache clear")
     # 4. exit test
     listing = set()
@@ -244,7 +332,7 @@ def r1(ctx):
             tests.append((n, v))
     rets = [n for n in g.nodes.values() if n.kind == "return" and n.id in g.reach([A.id], kinds=ALLC)]
     ctx.require(any(n.id in g.reach([A.id]) for n in rets), "C27.R1: the batch branch of run has no return")
-    ctx.ob("R1", "run tests `job_id not in <latest listing>`", len(tests) >= 1, func=f, node=tests[0][0].ast if tests else A.ast, instance="run:exit-test",
+    ob("R1", "run tests `job_id not in <latest listing>`", len(tests) >= 1, func=f, node=tests[0][0].ast if tests else A.ast, instance="run:exit-test",
            message="run no longer tests whether the job id left the listing returned by _get_running_jobs")
     Ei = [n.id for n, _ in tests]
     still = [s for n, v in tests for s in edge_succ(g, n.id, "t" if v else "f")]
@@ -255,28 +343,28 @@ def r1(ctx):
         # over normal, exception and cancellation routes (a handler that returns or leaves the loop counts too)
         unobserved = _path_without_edges(g, A.id, {r.id}, lambda a, k: done_kind.get(a) == k)
         ok = bool(tests) and g.dominates(Ei, r.id) and r.id not in in_wait and unobserved is None
-        ctx.ob("R1", "the result is returned only after the job left the listing", ok, func=f, node=r.ast, instance="run:return-after-exit",
+        ob("R1", "the result is returned only after the job left the listing", ok, func=f, node=r.ast, instance="run:return-after-exit",
                message="run can return the job's result while the job id is still in the running-jobs listing (or without testing it)"
                        + (f" -- {_route(g, unobserved)}" if unobserved else ""), witness=g.describe(unobserved) if unobserved else [])
     ok = bool(tests) and all(g.dominates(Di, e) for e in Ei)
     stale = None
     for s in still:
         stale = stale or g.path(s, Ei, avoid=Di)
-    ctx.ob("R1", "every round of the wait loop tests a fresh listing", ok and stale is None, func=f, node=tests[0][0].ast if tests else A.ast, instance="run:fresh-listing",
+    ob("R1", "every round of the wait loop tests a fresh listing", ok and stale is None, func=f, node=tests[0][0].ast if tests else A.ast, instance="run:fresh-listing",
            message="run re-tests the job id against a listing that was not re-polled (or never tests it)", witness=g.describe(stale) if stale else [])
     # 5. pop
     P = _nodes_calling(g, lambda c: _is_attr_call(c, F["jobs"], "pop")) + [
         n for n in g.nodes.values() if n.kind == "stmt" and isinstance(n.ast, ast.Delete) and any(isinstance(t, ast.Subscript) and dotted(t.value) == F["jobs"] for t in n.ast.targets)]
     Pi = [n.id for n in P]
     early = [x for x in Pi if not (tests and g.dominates(Ei, x)) or x in in_wait]
-    ctx.ob("R1", "the job id is removed from _scheduled_jobs only after the job left the listing", bool(P) and not early, func=f, node=P[0].ast if P else A.ast, instance="run:pop-after-exit",
+    ob("R1", "the job id is removed from _scheduled_jobs only after the job left the listing", bool(P) and not early, func=f, node=P[0].ast if P else A.ast, instance="run:pop-after-exit",
            message="run removes the job id from _scheduled_jobs before the exit test succeeded (queries restricted to _scheduled_jobs then miss the job)" if P else
                    "run never removes the finished job id from _scheduled_jobs")
     # 5b. ... also on the exception / cancellation routes (handlers, finally copies): a removal reached without
     # crossing the exit edge of the test deregisters a job that is still queued, so undeploy no longer cancels it
     failing = _path_without_edges(g, g.entry, set(Pi) - set(early), lambda a, k: done_kind.get(a) == k) if tests else None
     bad = g.nodes[failing[-1]] if failing else None
-    ctx.ob("R1", "no exception / cancellation route removes the job id while the job may still be queued", bool(tests) and failing is None, func=f,
+    ob("R1", "no exception / cancellation route removes the job id while the job may still be queued", bool(tests) and failing is None, func=f,
            node=bad.ast if bad is not None else (P[0].ast if P else A.ast), instance="run:pop-on-failure-route",
            message=(f"run executes `{bad.text(60)}` on a route that did not observe the job leaving the queue ({_route(g, failing)}): when the wait is "
                     "cancelled or a poll raises, the still queued job is deregistered and undeploy no longer cancels it") if bad is not None else
@@ -285,7 +373,7 @@ def r1(ctx):
     esc = None
     for s in done:
         esc = esc or (g.escape(s, Pi) if s not in Pi else None)
-    ctx.ob("R1", "every path from the loop exit removes the job id", bool(P) and bool(done) and esc is None, func=f, node=P[0].ast if P else A.ast, instance="run:pop-always",
+    ob("R1", "every path from the loop exit removes the job id", bool(P) and bool(done) and esc is None, func=f, node=P[0].ast if P else A.ast, instance="run:pop-always",
            message="run can finish without removing the job id from _scheduled_jobs: undeploy would cancel a job that already left the queue",
            witness=g.describe(esc) if esc else [])
     # 6. _scheduled_jobs follows the queue without a window: undeploy (R3) cancels exactly the registered ids, and
@@ -314,7 +402,7 @@ def r1(ctx):
 
     w = _window(g, done, set(Pi), susp, lambda n: _pop_late(n) is not None) if P and done else None
     wn = g.nodes[w[-1]] if w else None
-    ctx.ob("R1", "no suspension point between the loop exit and the removal of the job id", bool(P) and bool(done) and w is None, func=f,
+    ob("R1", "no suspension point between the loop exit and the removal of the job id", bool(P) and bool(done) and w is None, func=f,
            node=wn.ast if wn is not None else (P[0].ast if P else A.ast), instance="run:pop-atomic",
            message=(f"run suspends at `{wn.text(70)}` (L{wn.lineno}) after it learnt that the job left the queue and before `{_norm(P[0].ast)}`: "
                     "an undeploy running during that await still finds the id in _scheduled_jobs and cancels a job that already left the queue") if wn is not None else
@@ -322,7 +410,7 @@ def r1(ctx):
     after_submit = [b for b, k in g.succ[A.id] if k in ("n", "t", "f")]
     w = _window(g, after_submit, set(Bi), susp, lambda n: n.has_await()) if B else None
     wn = g.nodes[w[-1]] if w else None
-    ctx.ob("R1", "no suspension point between the submission and the registration of the job id", bool(B) and w is None, func=f,
+    ob("R1", "no suspension point between the submission and the registration of the job id", bool(B) and w is None, func=f,
            node=wn.ast if wn is not None else (B[0].ast if B else A.ast), instance="run:register-atomic",
            message=(f"run suspends at `{wn.text(70)}` (L{wn.lineno}) between the submission and `{_norm(B[0].ast)}`: an undeploy running during that await "
                     "does not find the queued job in _scheduled_jobs and leaves it in the queue") if wn is not None else "run does not register the job id",
@@ -683,7 +771,10 @@ def r3(ctx):
                         "await is dropped without being cancelled (the job stays in the queue, its run() fails on pop)") if lost is not None else "",
                witness=g.describe([lost, e]) if lost is not None else [])
     # writers of the two fields
-    allowed = {f"{QMC}.__init__", f"{QMC}.run", f"{QMC}.undeploy"}
+    # `run` = the function holding the batch branch (run itself, or the helper it was split into: R1 decides the
+    # bookkeeping there, so nothing else -- not even the remaining run -- may write it)
+    batch = _run_facts(ctx)["f"]
+    allowed = {f"{QMC}.__init__", batch.qualname, f"{QMC}.undeploy"}
     mutators = {"pop", "clear", "update", "setdefault", "popitem", "__setitem__", "__delitem__"}
     found = 0
     for fn in p.all_funcs():
@@ -702,8 +793,9 @@ def r3(ctx):
             if hit is None:
                 continue
             found += 1
-            ctx.ob("R3", f"`{n.attr}` is written only by QueueManagerConnector.__init__/run/undeploy", fn.qualname in allowed, func=fn, node=hit,
-                   instance=f"writer:{n.attr}:{fn.qualname}", message=f"{fn.qualname} writes `{_norm(hit)}`: the set of queued ids / the listing cache is changed outside run/undeploy")
+            ctx.ob("R3", f"`{n.attr}` is written only by QueueManagerConnector.__init__/{batch.name}/undeploy", fn.qualname in allowed, func=fn, node=hit,
+                   instance=f"writer:{n.attr}:{fn.qualname}", message=f"{fn.qualname} writes `{_norm(hit)}`: the set of queued ids / the listing cache is changed outside {batch.name}/undeploy"
+                   + (f" ({batch.name} holds the batch branch of run, where R1 decides the bookkeeping)" if batch.name != "run" else ""))
     ctx.require(found >= 5, f"C27.R3: only {found} writes of _scheduled_jobs/_jobs_cache found (floor 5)")
 
 
@@ -839,14 +931,15 @@ def r4(ctx):
     p = ctx.prog
     F = _run_facts(ctx)
     f, g, A, jid, B = F["f"], F["g"], F["A"], F["jid"], F["B"]
+    ob = _obv(ctx, F)
     for n in B:
         for t in n.ast.targets:
             if isinstance(t, ast.Subscript) and dotted(t.value) == F["jobs"]:
-                ctx.ob("R4", "the registered key is the id returned by the submission", _is_jid(f, t.slice, jid), func=f, node=n.ast, instance="id:register",
+                ob("R4", "the registered key is the id returned by the submission", _is_jid(f, t.slice, jid), func=f, node=n.ast, instance="id:register",
                        message=f"run registers `{_norm(t.slice)}` instead of the id returned by _run_batch_command")
     for c in f.calls():
         if _is_attr_call(c, F["jobs"], "pop"):
-            ctx.ob("R4", "the removed key is the id returned by the submission", bool(c.args) and _is_jid(f, c.args[0], jid), func=f, node=c, instance="id:pop",
+            ob("R4", "the removed key is the id returned by the submission", bool(c.args) and _is_jid(f, c.args[0], jid), func=f, node=c, instance="id:pop",
                    message=f"run removes `{_norm(c.args[0]) if c.args else ''}` instead of the job's own id")
     n_res = 0
     for name in ("_get_output", "_get_returncode"):
@@ -855,15 +948,21 @@ def r4(ctx):
             if isinstance(c.func, ast.Attribute) and c.func.attr == name and call_is(p, f, c, f"{QMC}.{name}"):
                 n_res += 1
                 a = bind_args(c, sig, skip_self=True).get("job_id")
-                ctx.ob("R4", f"{name} is asked for the job's own id", a is not None and _is_jid(f, a, jid), func=f, node=c, instance=f"id:{name}",
+                ob("R4", f"{name} is asked for the job's own id", a is not None and _is_jid(f, a, jid), func=f, node=c, instance=f"id:{name}",
                        message=f"run reads the result of `{_norm(a)}` instead of the id returned by _run_batch_command: another job's output/exit code is reported")
     ctx.require(n_res >= 2, "C27.R4: run no longer collects output and return code of the job")
     rets = [n for n in g.nodes.values() if n.kind == "return" and n.id in g.reach([A.id])]
     for r in rets:
         vals = list(origins(f, r.ast.value)) + [r.ast.value] if r.ast.value is not None else []
         names = {c.func.attr for o in vals for c in ast.walk(o) if isinstance(c, ast.Call) and isinstance(c.func, ast.Attribute)}
-        ctx.ob("R4", "the batch branch returns the job's return code", "_get_returncode" in names, func=f, node=r.ast, instance="id:returns-code",
+        ob("R4", "the batch branch returns the job's return code", "_get_returncode" in names, func=f, node=r.ast, instance="id:returns-code",
                message="run's batch branch no longer returns the exit code obtained from _get_returncode")
+    # the batch branch lives in a helper: every link of the call chain awaits the helper and returns its result unchanged
+    for caller, call, callee in F["chain"]:
+        ok, w = _forwarded(caller, call)
+        ctx.ob("R4", f"{caller.name} awaits {callee.name} (batch branch) and returns its result unchanged", ok, func=caller, node=call, instance=f"id:forwarded:{callee.name}",
+               message=f"{caller.qualname} calls `{_norm(call)}`, which holds the batch branch (submission, wait, result), but does not await it and return its "
+                       "result unchanged on every path: the job's own output / return code is not what the caller of run receives", witness=w)
 
 
 # =========================================================================== R5
@@ -989,6 +1088,16 @@ def r5(ctx):
             ctx.ob("R5", f"{m.name} passes a wrapping location to {c.func.attr}", lv == 0, func=m, node=c, instance=f"unwrap:{m.name}->{c.func.attr}",
                    message=f"{m.cls.name}.{m.name} passes `{_norm(a)}` to {c.func.attr}: it was already unwrapped {lv}x with get_inner_location and {c.func.attr} -> super().run unwraps it "
                            "again, so get_inner_location raises `does not wrap any inner location` (or the command runs one level too deep)")
+    # (d) a helper holding the batch branch of run receives run's wrapping location ((c) takes its parameter as wrapping)
+    for caller, call, callee in _run_facts(ctx)["chain"]:
+        cp, mp = _loc_param(p, callee), _loc_param(p, caller)
+        ctx.require(cp is not None, f"C27.R5: {callee.qualname} holds the batch branch of run but has no location parameter")
+        a = bind_args(call, callee.node, skip_self=True).get(cp)
+        lv = _unwraps(p, caller, a, {mp} if mp else set()) if a is not None else None
+        ctx.ob("R5", f"{caller.name} passes a wrapping location to {callee.name}", lv == 0, func=caller, node=call, instance=f"unwrap:{caller.name}->{callee.name}",
+               message=f"{caller.cls.name}.{caller.name} passes `{_norm(a)}` as `{cp}` to {callee.name} (batch branch of run): "
+                       + (f"it was already unwrapped {lv}x with get_inner_location and the queue-manager commands -> super().run unwrap it again" if lv else
+                          "it cannot be traced to the caller's own (wrapping) location parameter"))
     ctx.require(n_sites >= 4, f"C27.R5: only {n_sites} call sites of the sibling commands found in QueueManagerConnector (floor 4)")
 
 
@@ -1011,6 +1120,37 @@ _RES = "(" + _OUT + ", " + _RC + ")"
 
 def _ind(text: str) -> str:
     return "".join("    " + ln + "\n" for ln in text.splitlines())
+
+
+# the whole body of run (normalised text), for the variants that split the method (B16-5)
+_HEAD = ("        command_str = utils.create_command(class_name=self.__class__.__name__, command=command, environment=environment, workdir=workdir)\n"
+         "        if logger.isEnabledFor(logging.DEBUG):\n"
+         "            logger.debug('EXECUTING command {command} on {location} {job}'.format(command=command_str, location=location, job=f'for job {job_name}' if job_name else ''))\n"
+         "        if logger.isEnabledFor(logging.WARNING):\n"
+         "            if not self.template_map.is_empty() and location.service is None:\n"
+         "                logger.warning(f'Deployment {self.deployment_name} contains some service definitions, but none of them has been specified to execute job {job_name}. Execution will fall back to the default template.')\n"
+         "        command_str = self.template_map.get_command(command=command_str, template=location.service, environment=environment, workdir=workdir)\n"
+         "        job_id = await self._run_batch_command(command=command_str, environment=location.environment, job_name=job_name, location=location, workdir=workdir, stdin=stdin, stdout=stdout, stderr=stderr, timeout=timeout)\n"
+         "        if logger.isEnabledFor(logging.INFO):\n"
+         "            logger.info(f'Scheduled job {job_name} with job id {job_id}')\n")
+_SUPER = ("await super().run(location=get_inner_location(location), command=command, environment=environment, workdir=workdir, stdin=stdin, stdout=stdout, "
+          "stderr=stderr, job_name=job_name, timeout=timeout, capture_output=capture_output)")
+_BATCH = _HEAD + _REG + _CLEAR + _LOOP + _POP + "        return " + _RES + "\n"
+_RUN_BODY = "    if job_name:\n" + _BATCH + "    else:\n        return " + _SUPER
+_HELPER_ARGS = "location=location, command=command, job_name=job_name, environment=environment, workdir=workdir, stdin=stdin, stdout=stdout, stderr=stderr, timeout=timeout"
+_HELPER_SIG = "(self, location: ExecutionLocation, command, job_name, environment, workdir, stdin, stdout, stderr, timeout)"
+_DELEGATE = "        return await self._run_batch_job(" + _HELPER_ARGS + ")\n"
+
+
+def _dedent4(text: str) -> str:
+    return "".join(ln[4:] + "\n" for ln in text.splitlines())
+
+
+def _split(delegate: str = _DELEGATE, batch: str = _BATCH, extra: str = "") -> str:
+    """run split in two cooperating methods (B16-5): the batch branch moves verbatim into a private coroutine that run
+    awaits and returns; `delegate` / `batch` / `extra` let a variant change the call site, the moved body, or add a method"""
+    return ("    if job_name:\n" + delegate + "    return " + _SUPER + "\n\n" + extra
+            + "async def _run_batch_job" + _HELPER_SIG + ":\n" + _dedent4(batch)).rstrip("\n")
 
 
 _GATHER = "    await asyncio.gather(*(asyncio.create_task(self._remove_jobs(loc_map[location], jobs)) for location, jobs in jobs_map.items()))\n"
@@ -1138,4 +1278,26 @@ VARIANTS = [
     V("exit test as a guard clause that continues", FILE, RUN, "            if job_id not in running_jobs:\n                break\n            await asyncio.sleep(self.pollingInterval)\n",
       "            if job_id in running_jobs:\n                await asyncio.sleep(self.pollingInterval)\n                continue\n            break\n", None),
     V("result into locals", FILE, RUN, "        self._scheduled_jobs.pop(job_id)\n", "        self._scheduled_jobs.pop(job_id)\n        logger.debug('left the queue')\n", None),
+    # ---- the batch branch of run split off into a private helper (B16-5): the rules follow the resolved call
+    V("B16-5: run split in two cooperating methods, the batch branch moved verbatim into _run_batch_job", FILE, RUN, _RUN_BODY, _split(), None),
+    V("split run, helper result through a temporary", FILE, RUN, _RUN_BODY,
+      _split("        res = await self._run_batch_job(" + _HELPER_ARGS + ")\n        logger.debug('batch job done')\n        return res\n"), None),
+    V("split run, two helper levels (run -> _batch -> _run_batch_job)", FILE, RUN, _RUN_BODY,
+      _split("        return await self._batch(" + _HELPER_ARGS + ")\n",
+             extra="async def _batch" + _HELPER_SIG + ":\n    return await self._run_batch_job(" + _HELPER_ARGS + ")\n\n"), None),
+    V("split run, pop moved into a finally inside the helper", FILE, RUN, _RUN_BODY,
+      _split(batch=_BATCH.replace(_LOOP + _POP, "        try:\n" + _ind(_LOOP) + "        finally:\n            self._scheduled_jobs.pop(job_id, None)\n")), "R1"),
+    V("split run, helper clears the cache before the registration", FILE, RUN, _RUN_BODY, _split(batch=_BATCH.replace(_REG + _CLEAR, _CLEAR + _REG)), "R1"),
+    V("split run, helper pops behind the awaited result collection", FILE, RUN, _RUN_BODY,
+      _split(batch=_BATCH.replace(_POP + "        return " + _RES + "\n", "        result = " + _RES + "\n        self._scheduled_jobs.pop(job_id, None)\n        return result\n")), "R1"),
+    V("split run, the remaining run wipes the bookkeeping when the helper fails", FILE, RUN, _RUN_BODY,
+      _split("        try:\n    " + _DELEGATE + "        except Exception:\n            self._scheduled_jobs.clear()\n            raise\n"), "R3"),
+    V("split run, the helper is started as a task and run returns at once", FILE, RUN, _RUN_BODY,
+      _split("        asyncio.create_task(self._run_batch_job(" + _HELPER_ARGS + "))\n        return (None, 0)\n"), "R4"),
+    V("split run, the helper's result is dropped on one path", FILE, RUN, _RUN_BODY,
+      _split("        res = await self._run_batch_job(" + _HELPER_ARGS + ")\n        if capture_output:\n            return res\n"), "R4"),
+    V("split run, helper reads the return code of another id", FILE, RUN, _RUN_BODY,
+      _split(batch=_BATCH.replace("await self._get_returncode(job_id, location)", "await self._get_returncode(job_name, location)")), "R4"),
+    V("split run, the helper receives an already unwrapped location", FILE, RUN, _RUN_BODY,
+      _split(_DELEGATE.replace("location=location", "location=get_inner_location(location)")), "R5"),
 ]
